@@ -18,10 +18,17 @@ MANIFEST = {
             "per_block_tiles_once_partial - along every run in per-block mode no block is handed over twice in an lg_crcv lifetime and at "
             "completion all of them have been: the offsets tile the body, each once).  SENDERS (lg_xmit), for every state and every request / response: server_block2_genuine (every Block2 response is "
             "the slice for the requested NUM/SZX with the right More bit and fits the PDU, a changed size is 4.00), first_block_genuine (first "
-            "Block1 message = slice 0 at the lg_xmit size after both size reductions), client_block1_slices + client_block1_genuine_partial "
-            "(every follow-up Block1 message is the slice for its NUM/SZX, along any response sequence incl. early size renegotiation; More bit "
-            "and position right unless a server asks for a LARGER size), so the slice hypothesis of the receivers is discharged for libcoap "
-            "senders.  RELEASE CALLBACK: adl_release_once (every exit path of coap_add_data_large_internal calls it once or hands it to exactly "
+            "Block1 message = slice 0 at the lg_xmit size after both size reductions), client_block1_slices + client_block1_genuine "
+            "(every follow-up Block1 message is the slice for its NUM/SZX with the right More bit and position, along EVERY response sequence "
+            "incl. early size renegotiation and servers asking for a larger size, which is ignored), so the slice hypothesis of the receivers is "
+            "discharged for libcoap senders.  HOSTILE PEER (not libcoap; no hypothesis on the datagrams): block2_hostile_no_unwritten_bytes - "
+            "client, single-body: for EVERY sequence of responses (SZX changing in mid-transfer, Size2 different on every response, blocks nobody "
+            "asked for, short blocks anywhere, any More bits / ETags) every byte of a body handed to the response handler was sent by the server "
+            "for exactly that offset - no never-written byte of the reassembly buffer is ever delivered; block1_hostile_no_unwritten_bytes - the "
+            "same for the server's Block1 receive path against EVERY request sequence (SZX changing in both directions, Size1 up to 2^32-1, short "
+            "blocks, blocks beyond the end); block2/block1_hostile_prefix_of_body (payloads cut from one byte string => the delivery is a prefix "
+            "of it: the oracle of the crcv / srcv ops); block2_hostile_per_block (per-block mode hands over this response's payload).  "
+            "RELEASE CALLBACK: adl_release_once (every exit path of coap_add_data_large_internal calls it once or hands it to exactly "
             "one linked lg_xmit) + release_exactly_once (any create/delete/session-free sequence: never twice, exactly once at session free).  "
             "request_tag_tells_transfers_apart (lg_srcv lookup keyed by Request-Tag presence AND value, EMPTY tag included).  COMPOSED, Block2: "
             "never_wrong_body_block2_composed_partial - libcoap server (first block via adlBody on the response path's parameters, "
@@ -38,9 +45,11 @@ MANIFEST = {
             "the Python trace oracle, the hand transcriptions M (Model/Block.lean, BlockCrcv.lean, BlockXmit.lean, BlockRtag.lean; checked against the "
             "compiled code only on the cases run).  SPEC DECISIONS D6 (duplicated request datagram = new request), D13, D14, D15 (refusing for lack "
             "of room is an explicit failure), D16 (abandoned = retransmissions exhausted).  One open finding is reported as KNOWN-FINDING "
-            "(c09-late-message-raw-token).  Robustness gaps against a NON-libcoap peer (outside the property's quantifier; Lean witnesses + corpus "
-            "lines, not fixed): a server changing SZX mid-transfer or mixing Size2 values makes the client deliver never-written bytes; a server "
-            "asking for a larger Block1 size makes the client skip bytes and leak a PDU.",
+            "(c09-late-message-raw-token).  Against a NON-libcoap peer the 'sender's body' of the property is not defined; what is proved there is "
+            "the C02 part (no never-written byte is delivered, deliveries are made of bytes the peer sent for those offsets), after eight fixes in "
+            "libcoap (KNOWN_FINDINGS: a8ffb89 0b3fb08 2e4f34e 650c3a2 248b251 11109ea cb35487 8abfc44); harness/block.c observes it on the real code "
+            "by running every crcv / srcv* line twice with different allocation poisons and counting live allocations.  Not fixed (by reading): "
+            "the body buffer is allocated as large as Size1 / Size2 announces (4 GiB from one datagram), Q-Block and BERT paths.",
     "design_ref": "DESIGN.md §4 C09, design/C09.md",
 }
 LEAN_MODULES = ["CoapVerif.Props.C09"]
@@ -48,7 +57,9 @@ NAMESPACE = "Coap.C09"
 REQUIRED_THEOREMS = ["block_opt_roundtrip", "blocks_tile_body", "rblock_represents", "reassembly_exact", "block_fits_mtu",
                      "never_wrong_body_partial", "at_most_once_per_transfer_partial",
                      "never_wrong_body_block2_partial", "at_most_once_block2_partial", "per_block_tiles_once_partial", "server_block2_genuine", "first_block_genuine",
-                     "client_block1_slices", "client_block1_genuine_partial", "adl_release_once", "release_exactly_once",
+                     "client_block1_slices", "client_block1_genuine", "adl_release_once", "release_exactly_once",
+                     "block2_hostile_no_unwritten_bytes", "block2_hostile_prefix_of_body", "block2_hostile_per_block",
+                     "block1_hostile_no_unwritten_bytes", "block1_hostile_prefix_of_body",
                      "request_tag_tells_transfers_apart", "never_wrong_body_block2_composed_partial",
                      "never_wrong_body_block1_composed_partial", "response_path_params_ok"]
 RULE = ("Layer A: block option values (all single bytes, random 0-3 byte values, boundary NUMs), setup_block_b / coap_write_block_b_opt / "
@@ -58,13 +69,19 @@ RULE = ("Layer A: block option values (all single bytes, random 0-3 byte values,
         "without Size1 in any order with duplicates, two interleaved transfers told apart by Request-Tag (absent / EMPTY / 1..8 bytes), Block2 "
         "receive sequences through the real coap_handle_response_get_block (both modes, ETag / Content-Format / Size2 / SZX / More-bit noise), "
         "sender sequences through the real coap_handle_request_send_block and coap_handle_response_send_block (requests in any order / beyond "
-        "the end / changed size, 2.31 in order / duplicated / renegotiating to a smaller or larger size, error codes); Layer B: whole transfers "
+        "the end / changed size, 2.31 in order / duplicated / renegotiating to a smaller or larger size, error codes); HOSTILE PEERS: a server "
+        "that changes SZX in mid-transfer in both directions, sends a different Size2 on every response, blocks nobody asked for, short blocks "
+        "and blocks without More anywhere (crcv, both modes), a server asking for larger Block1 sizes at any point (xmit1), a client that changes "
+        "SZX in both directions, sends short blocks / blocks without More anywhere, any Size1, blocks far ahead, in any order (srcv2); every "
+        "crcv / srcv* line is run twice with different allocation poisons (the output must not depend on never-written memory), every line "
+        "must free what it allocated, a refused coap_add_data_large_request must not leave pdu->lg_xmit dangling; Layer B: whole transfers "
         "(PUT/Block1 with libcoap's or the application's Request-Tag incl. EMPTY, GET/Block2, hand-built Block1 without Size1) "
         "between a real client and server context under drop/duplicate schedules over the first 4-13 datagrams, MTU 64..1500, SZX asked "
         "by either side, CON/NON, single-body/per-block, two concurrent transfers (also to one resource, told apart by Request-Tag only); "
         "non-trivial = the real code did not refuse the input")
 TRUSTED_BASE = ["Lean 4.33 kernel; axioms allowed: propext, Classical.choice, Quot.sound (audited per theorem each run)",
-                "T1 extractor extract/blockconst.c and its renderer", "harness/block.c, harness/block_sim.h, harness/sim_core.h, generators, "
+                "T1 extractor extract/blockconst.c and its renderer", "harness/block.c (incl. its coap_malloc_type / coap_realloc_type / "
+                "coap_free_type wrap: poison fill up to 64 MiB per allocation, live count), harness/block_sim.h, harness/sim_core.h, generators, "
                 "the Python trace oracle (judge_xfer) and string comparison",
                 "M (CoapVerif/Model/Block.lean, BlockCrcv.lean, BlockXmit.lean, BlockRtag.lean) is a hand transcription; checked against the compiled "
                 "code only on the cases run (ops srcv srcv2 srcv3 crcv xmit1 xmit2 and the Layer A ops)"]
@@ -81,7 +98,11 @@ ASSUMPTIONS = ["block numbers < 2^31 at every call of the range functions (coap_
                "never_wrong_body_block2_partial / at_most_once_block2_partial: every response carries the server's slice for its NUM/SZX with the "
                "right More bit, in the block size the lg_crcv tracks, with the same Size2 (<= true length, or none) on every response; ETag and "
                "Content-Format arbitrary; no Observe, Q-Block2, BERT; allocation and coap_send_internal never fail",
-               "client_block1_genuine_partial: no response asks for a larger block size than the lg_xmit uses; body < 2^32 bytes",
+               "client_block1_genuine: the lg_xmit is well formed (XmitInv, preserved by every step); body < 2^32 bytes",
+               "block2_hostile_*: none on the responses; the lg_crcv the run starts with is absent or initial; allocation and coap_send_internal never "
+               "fail; size_t is 64 bits (Size2 + chunk does not wrap); plain Block2 (no Q-Block2, BERT, Observe)",
+               "block1_hostile_*: NUM < 2^20 and SZX <= 6 on every request (what coap_get_block_b lets through: block_opt_bounds); allocation never "
+               "fails; plain Block1, COAP_BLOCK_SINGLE_BODY, one lg_srcv",
                "release_exactly_once: every deletion site unlinks a list member before coap_block_delete_lg_xmit (checked by reading all 10 sites)",
                "compiled Lean definitions agree with the kernel's reading of them"]
 SPEC_DECISIONS = ["D15 coap_add_data_large_request/_response returning 0 (no room for even the smallest block within the maximum "
@@ -118,12 +139,14 @@ def extract(ctx):
 
 
 def harness(ctx):
-    core = os.path.join(C.VERIF, "harness", "block_sim.h")
-    out = os.path.join(C.build_libcoap(), "h_block")
-    src = os.path.join(C.REPO, "src", "coap_block.c")
-    if os.path.exists(out) and max(os.path.getmtime(core), os.path.getmtime(src)) > os.path.getmtime(out):
+    bdir = C.build_libcoap()
+    out = os.path.join(bdir, "h_block")
+    deps = [os.path.join(C.VERIF, "harness", "block_sim.h"), os.path.join(C.VERIF, "harness", "sim_core.h"),
+            os.path.join(C.REPO, "src", "coap_block.c")]
+    if os.path.exists(out) and max(os.path.getmtime(d) for d in deps) > os.path.getmtime(out):
         os.unlink(out)
-    return simlib.build_sim_harness("block")
+    # allocation wrap of harness/block.c: poison for never-written bytes, live count for leaks
+    return C.build_harness("block", bdir, wraps=simlib.SIM_WRAPS + ["coap_malloc_type", "coap_realloc_type", "coap_free_type"])
 
 
 # --------------------------------------------------------------------------
@@ -334,6 +357,172 @@ def gen_crcv(rng, n):
     return L
 
 
+def gen_crcv_hostile(rng, n):
+    """a server that is NOT libcoap (C02: hostile input in the middle of a block-wise transfer): SZX changed in the middle
+    of the transfer in both directions (NUM rescaled to the same offset, as a naive receiver would accept it, or not),
+    Size2 absent / too small / too large / different on every response, blocks nobody asked for (far ahead, behind),
+    blocks without More in the middle, payloads shorter than the block, duplicates, flipped More bits.  Every payload is
+    cut from the one body at the offset the Block2 option names, so whatever is delivered must be a prefix of the body
+    (single-body) / that very slice (per-block), must not depend on never-written memory (` UNINIT`) and nothing may leak."""
+    L = []
+    for _ in range(n):
+        s0 = rng.randrange(3) if rng.random() < 0.8 else rng.randrange(7)
+        c0 = 16 << s0
+        ln = rng.choice([rng.randrange(1, 9 * c0), rng.randrange(2, 7) * c0, rng.randrange(2, 7) * c0 + 1, rng.randrange(2, 7) * c0 - 1])
+        single = rng.choice([1, 1, 1, 0])
+        line_s2 = rng.choice(["-", "-", str(ln), str(rng.randrange(ln + 1)), str(ln + rng.randrange(1, 3 * c0))])
+        kind = rng.choice(["szx", "szx", "size2", "short", "ahead", "mix", "mix"])
+        items = []
+        cur, off = s0, 0
+        steps = 0
+        switched = False
+        while off < ln and steps < 24:
+            steps += 1
+            c = 16 << cur
+            num = off // c
+            m = 1 if off + c < ln else 0
+            ln_f, s2_f = None, None
+            r = rng.random()
+            if kind in ("szx", "mix") and (r < 0.18 or (not switched and off >= ln // 2)):
+                # change the block size, up or down; NUM rescaled to the current offset if that is a block boundary there
+                new = rng.choice([x for x in range(7) if x != cur and abs(x - cur) <= 3] or [cur])
+                switched = True
+                if rng.random() < 0.25:
+                    items.append("%d.%d.%d.0.42" % (off // (16 << new), 1 if (off // (16 << new) + 1) * (16 << new) < ln else 0, new))
+                    if rng.random() < 0.5:
+                        continue                      # … once, then on in the old size
+                cur = new
+                c = 16 << cur
+                num = off // c
+                m = 1 if (num + 1) * c < ln else 0
+            if kind in ("size2", "mix") and rng.random() < 0.5:
+                s2_f = rng.choice([0, ln + 1, rng.randrange(ln + 1) + 1, ln + 1 + rng.randrange(1, 4 * c), off + c + 1 + rng.randrange(3)])
+            if kind in ("short", "mix") and rng.random() < 0.2:
+                ln_f = rng.randrange(0, c + 1)
+                if rng.random() < 0.7:
+                    m = 0                             # a short block pretending to be the last one
+            if kind in ("ahead", "mix", "size2") and rng.random() < 0.2:
+                # a block nobody asked for: far ahead / behind, with or without More, sometimes without Size2
+                k2 = rng.randrange(0, ln // c + 3)
+                items.append("%d.%d.%d.0.42.99999.%d" % (k2, rng.choice([1, 1, 0]) if (k2 + 1) * c < ln + c else 0, cur,
+                                                         rng.choice([0, 0, ln + 1, ln + 1 + rng.randrange(1, 5 * c)])))
+            if rng.random() < 0.05:
+                m = 1 - m
+            it = "%d.%d.%d.0.42" % (num, m, cur)
+            if ln_f is not None or s2_f is not None:
+                it += ".%d" % (99999 if ln_f is None else ln_f)
+            if s2_f is not None:
+                it += ".%d" % s2_f
+            items.append(it)
+            if rng.random() < 0.08:
+                items.append(it)                      # duplicate
+            off = (num + 1) * c
+        if rng.random() < 0.3:
+            # … and the whole body once more, cleanly, in the first size: a transfer after the hostile one must still work
+            nb = (ln + c0 - 1) // c0
+            items += ["%d.%d.%d.0.42" % (k, 1 if k + 1 < nb else 0, s0) for k in range(nb)]
+        L.append("crcv %d %d %d %s %s" % (single, ln, rng.randrange(256), line_s2, ",".join(items[:40])))
+    return L
+
+
+def gen_srcv_hostile(rng, n):
+    """a CLIENT that is not libcoap against the server's single-body Block1 receive path: SZX changed in the middle of the
+    transfer in both directions (NUM rescaled to the offset reached, or not), blocks without More that are shorter than
+    the block size anywhere in the body, Size1 absent / too small / too large, blocks far ahead, duplicates, any order.
+    Every payload is cut from the one body at the offset the Block1 option names: whatever the request handler gets must
+    be a prefix of the body and must not depend on never-written memory (` UNINIT`)."""
+    L = []
+    for _ in range(n):
+        s0 = rng.randrange(4)
+        c0 = 16 << s0
+        ln = rng.choice([rng.randrange(c0 + 1, 9 * c0), rng.randrange(2, 7) * c0, rng.randrange(2, 7) * c0 + 1, rng.randrange(2, 7) * c0 - 1])
+        size1 = rng.choice(["-", "-", str(ln), str(rng.randrange(ln + 1)), str(ln + rng.randrange(1, 3 * c0))])
+        maxblk = rng.choice([0, 0, 0, s0, max(0, s0 - 1), rng.randrange(7)])
+        kind = rng.choice(["szx", "szx", "short", "short", "mix", "mix", "ahead"])
+        items = []
+        cur, off, steps = s0, 0, 0
+        while off < ln and steps < 24:
+            steps += 1
+            c = 16 << cur
+            num = off // c
+            m = 1 if (num + 1) * c < ln else 0
+            ln_f = None
+            r = rng.random()
+            if kind in ("szx", "mix") and r < 0.25:
+                new = rng.choice([x for x in range(7) if x != cur and abs(x - cur) <= 3] or [cur])
+                if rng.random() < 0.3:
+                    # one stray block in the other size (its NUM names the offset reached, or is the old NUM)
+                    k2 = rng.choice([off // (16 << new), num, num + 1])
+                    items.append("%d.%d.%d" % (k2, rng.choice([0, 1]) if (k2 + 1) * (16 << new) < ln else 0, new))
+                    if rng.random() < 0.6:
+                        continue
+                cur = new
+                c = 16 << cur
+                num = off // c
+                m = 1 if (num + 1) * c < ln else 0
+            if kind in ("short", "mix") and rng.random() < 0.25:
+                ln_f = rng.randrange(0, c + 1)
+                if rng.random() < 0.8:
+                    m = 0
+            if kind in ("ahead", "mix") and rng.random() < 0.2:
+                k2 = rng.randrange(0, ln // c + 3)
+                items.append("%d.%d.%d" % (k2, rng.choice([1, 0]) if (k2 + 1) * c < ln else 0, cur))
+            if rng.random() < 0.05:
+                m = 1 - m
+            it = "%d.%d.%d" % (num, m, cur)
+            if ln_f is not None:
+                it += ".%d" % ln_f
+            items.append(it)
+            if rng.random() < 0.1:
+                items.append(rng.choice([it, "%d.%d.%d" % (num, m, cur)]))
+            off = (num + 1) * c
+        if rng.random() < 0.3:
+            rng.shuffle(items)
+        if rng.random() < 0.3:
+            nb = (ln + c0 - 1) // c0
+            items += ["%d.%d.%d" % (k, 1 if k + 1 < nb else 0, s0) for k in range(nb)]
+        L.append("srcv2 %d %d %d %s %s" % (maxblk, ln, rng.randrange(256), size1, ",".join(items[:40])))
+    return L
+
+
+def gen_xmit1_hostile(rng, n):
+    """client Block1 against a server that is not libcoap: 2.31 asking for a LARGER block size (at the first block, in the
+    middle, repeatedly, NUM in the client's unit or rescaled to the larger one), mixed with genuine reductions, duplicates
+    and stale acknowledgements: every block message must be the slice for its NUM/SZX with the right More bit"""
+    L = []
+    for _ in range(n):
+        mtu = rng.choice([1152, 1152, 1500, rng.randrange(100, 1300)])
+        szx = rng.randrange(6)
+        cs = rng.choice(["-", str(szx), str(szx)])
+        ceff = min((16 << szx) if cs != "-" else 1024, 1 << max(4, (max(mtu - 80, 16)).bit_length() - 1))
+        cur = ceff.bit_length() - 5
+        ln1 = rng.choice([rng.randrange(ceff + 1, 9 * ceff), rng.randrange(2, 7) * ceff, rng.randrange(2, 7) * ceff + 1])
+        items = []
+        k = 0
+        nb1 = (ln1 + ceff - 1) // ceff
+        while k < nb1 and len(items) < 30:
+            c = 16 << cur
+            nb1 = (ln1 + c - 1) // c
+            last = k >= nb1 - 1
+            rr = rng.random()
+            if rr < 0.3 and cur < 6:
+                big = rng.randrange(cur + 1, 7)
+                # NUM as the client counts, or rescaled to the larger size (what a confused server would name)
+                items.append("95.%d.%d" % (k if rng.random() < 0.6 else (k * c) // (16 << big), big))
+            elif rr < 0.4 and cur > 0 and not last:
+                new = rng.randrange(cur)
+                k = ((k + 1) << (cur - new)) - 1
+                cur = new
+                items.append("95.%d.%d" % (k, cur))
+            else:
+                items.append("%d.%d.%d" % (68 if last else 95, k, cur))
+            if rng.random() < 0.1:
+                items.append(items[-1])
+            k += 1
+        L.append("xmit1 %s %d %d %d %s" % (cs, ln1, rng.randrange(256), mtu, ",".join(items) or "-"))
+    return L
+
+
 def gen_xmit(rng, n):
     """the sender side (real coap_handle_request_send_block / coap_handle_response_send_block on a real lg_xmit)"""
     L = []
@@ -438,7 +627,8 @@ def generate(ctx, escalate=False):
     n = 3000 if ctx.thorough() else 400
     if escalate:
         n *= 3
-    return gen_layer_a(ctx, n) + gen_crcv(ctx.rng, n * 2) + gen_xmit(ctx.rng, n) + gen_rtag(ctx.rng, n) + gen_layer_b(ctx, n * 3)
+    return gen_layer_a(ctx, n) + gen_crcv(ctx.rng, n * 2) + gen_xmit(ctx.rng, n) + gen_rtag(ctx.rng, n) + gen_layer_b(ctx, n * 3) + \
+        gen_crcv_hostile(ctx.rng, n * 2) + gen_xmit1_hostile(ctx.rng, n) + gen_srcv_hostile(ctx.rng, n * 2)
 
 
 # --------------------------------------------------------------------------
@@ -472,6 +662,12 @@ def spec_layer_a(ctx, c):
     op = w[0]
     if i.startswith("crash"):
         return "the real code crashed: " + i[:200]
+    if " UNINIT" in i:
+        return "what the application is handed depends on bytes nobody wrote (two runs with different allocation poisons differ): " + i[:160]
+    if " LEAK=" in i:
+        return "memory allocated by libcoap during this case was not freed when the contexts were: " + i[-40:]
+    if "DANGLING" in i:
+        return "the refused coap_add_data_large_request left pdu->lg_xmit pointing at the lg_xmit it freed: " + i[:80]
     if op == "benc":
         num, m, szx = map(int, w[1:4])
         if num < (1 << 20) and szx <= 6:
@@ -570,9 +766,19 @@ def spec_layer_a(ctx, c):
     elif op == "srcv2":
         ln, seed = int(w[2]), int(w[3])
         body = mk_body(ln, seed)
+        # what a sender of that body could send: the slice for NUM/SZX inside the body, with the right More bit
+        hostile = not all(len(x) == 3 and int(x[0]) * (16 << int(x[2])) < ln and
+                          int(x[1]) == (1 if (int(x[0]) + 1) * (16 << int(x[2])) < ln else 0)
+                          for x in (y.split(".") for y in w[5].split(",")))
         for o in i.split(","):
             if o.startswith("d"):
                 f = o[1:].split(":")
+                # EVERY line: every payload is cut from the one body at the offset its Block1 option names, so whatever the
+                # request handler is handed must be the first bytes of it
+                if f[0] != "0" or int(f[1]) > ln or f[3] != fnv(body[:int(f[1])]):
+                    return "the request handler was given %s: not the first %s bytes of what the client sent (%s)" % (o, f[1], fnv(body[:int(f[1])]))
+                if hostile:
+                    continue
                 # the single-block shortcut (num 0, M 0) hands over just that payload: only whole-body deliveries are judged
                 if int(f[1]) == ln and (f[0] != "0" or f[3] != fnv(body)):
                     return "the handler was given %s, the sender's body is %d bytes hash %s" % (o, ln, fnv(body))
@@ -583,6 +789,18 @@ def spec_layer_a(ctx, c):
         body = mk_body(ln, seed)
         its = [x.split(".") for x in w[5].split(",")]
         genuine = crcv_genuine(w)
+        # EVERY line, hostile or not: every payload the harness sends is cut from the one body at the offset its Block2
+        # option names, so a reassembled body must be a prefix of it and a block / random-access delivery that very slice
+        for o in i.split(","):
+            mm = re.match(r"([hH])(\d+):(\d+):(\d+):([0-9a-f]{8})", o)
+            if not mm:
+                continue
+            kind, off, l, tot, h = mm.group(1), int(mm.group(2)), int(mm.group(3)), int(mm.group(4)), mm.group(5)
+            if single and kind == "H":
+                if off != 0 or l > ln or h != fnv(body[:l]):
+                    return "the response handler was given %s as the body: not the first %d bytes of what the server sent (%s)" % (o, l, fnv(body[:l]))
+            elif l and (off + l > ln or h != fnv(body[off:off + l])):
+                return "the response handler was given %s, which is not what the server sent for that offset" % o
         if genuine:
             for o in i.split(","):
                 mm = re.match(r"([hH])(\d+):(\d+):(\d+):([0-9a-f]{8})", o)
@@ -603,12 +821,8 @@ def spec_layer_a(ctx, c):
         items = [None] + (w[5].split(",") if w[5] != "-" else [])
         cur = re.search(r" lg=(-?\d+)", i)
         cur = int(cur.group(1)) if cur else -1
-        larger = False
+        larger = False           # (a 2.31 asking for a larger size is ignored since fix 650c3a2: the More bit is always judged)
         for it, o in zip(items, outs):
-            # a response asking for a LARGER block size than the client currently uses is outside what a libcoap server does
-            # (the client then computes M in the old unit): the More bit is not judged from there on
-            if op == "xmit1" and it and it.count(".") == 2 and int(it.split(".")[2]) > cur:
-                larger = True
             st = re.search(r"/(\d+)\.\d+\.-?\d+$", o)
             if st:
                 cur = int(st.group(1))
@@ -660,6 +874,8 @@ def spec_layer_a(ctx, c):
             if o.startswith("d"):
                 nd += 1
                 f = o[1:].split(":")
+                if f[0] != "0" or int(f[1]) > ln or f[3] != fnv(body[:int(f[1])]):
+                    return "the request handler was given %s: not the first %s bytes of what the client sent (%s)" % (o, f[1], fnv(body[:int(f[1])]))
                 if f[0] != "0" or int(f[1]) != ln or f[3] != fnv(body):
                     # only blocks that are genuine slices of the body are ever sent (len overrides make short blocks: skip those)
                     if not any(x.count(":") == 2 for x in w[5].split(",")):
@@ -677,21 +893,9 @@ def judge(ctx, c):
     why = spec_layer_a(ctx, c)
     if why:
         return ("spec", why)
+    if m == "big" and c["input"].startswith("srcv "):
+        return None                 # Size1 beyond what the model can evaluate: judged against the specification only
     ii = re.sub(r" rel=\d+$", "", i or "")
-    if c["input"].startswith("srcv") and any(x.count(":") == 2 for x in c["input"].split()[5].split(",")):
-        # a block shorter than the announced size leaves never-written (malloc'd) bytes in the buffer: compare shapes only
-        ii = re.sub(r":[0-9a-f]{8}(,|$)", r":*\1", ii)
-        m = re.sub(r":[0-9a-f]{8}(,|$)", r":*\1", m or "")
-    if c["input"].startswith("crcv") and c["input"].split()[1] == "1" and not crcv_genuine(c["input"].split()):
-        # short payloads / mixed block sizes leave never-written (malloc'd) bytes in the buffer: compare shapes only
-        ii = re.sub(r":[0-9a-f]{8}", ":*", ii)
-        m = re.sub(r":[0-9a-f]{8}", ":*", m or "")
-    if c["input"].startswith("srcv3"):
-        its = [x.split(".") for x in c["input"].split()[7].split(",")]
-        if {x[4] for x in its if x[0] == "0"} & {x[4] for x in its if x[0] == "1"}:
-            # both senders use the same Request-Tag: their blocks share one lg_srcv, short last blocks leave never-written bytes
-            ii = re.sub(r":[0-9a-f]{8}", ":*", ii)
-            m = re.sub(r":[0-9a-f]{8}", ":*", m or "")
     if ii != m:
         return ("tie", "implementation `%s` but model M says `%s`" % (short(ii), short(m)))
     return None
@@ -712,6 +916,8 @@ def judge_xfer(ctx, c):
     i = c["impl"] or ""
     if i.startswith("crash") or not i or "end:" not in i:
         return ("spec", "the transfer crashed or hung the real code: " + i[:200])
+    if " LEAK=" in i:
+        return ("spec", "memory allocated by libcoap during this transfer was not freed when the contexts were: " + i[-40:])
     bodies = [mk_body(l, s) for l, s in zip(x["len"], x["seed"])]
     ntr = len(bodies)
     toks = i.split()
@@ -892,7 +1098,8 @@ def classify(c):
 
 
 def search(ctx, tie_breaks, proof):
-    return gen_layer_a(ctx, 1500) + gen_crcv(ctx.rng, 3000) + gen_xmit(ctx.rng, 1500) + gen_rtag(ctx.rng, 1500)
+    return gen_layer_a(ctx, 1500) + gen_crcv(ctx.rng, 3000) + gen_xmit(ctx.rng, 1500) + gen_rtag(ctx.rng, 1500) + \
+        gen_crcv_hostile(ctx.rng, 3000) + gen_xmit1_hostile(ctx.rng, 1500) + gen_srcv_hostile(ctx.rng, 3000)
 
 
 def known(ctx, c):
